@@ -34,7 +34,8 @@ pub fn standard_plan(tier: Tier, scale: u64) -> Plan {
     }
     match tier {
         Tier::Quick => {
-            families.push((Box::new(EpFamily { extra: Extra::None }), 1));
+            families.push((Box::new(EpFamily { extra: Extra::None, pre_push: false }), 1));
+            families.push((Box::new(EpFamily { extra: Extra::None, pre_push: true }), 2));
             families.push((Box::new(CastleFamily { extras: 0, opp_rights: false, opp_to_move: false }), 1));
             families.push((Box::new(CastleFamily { extras: 1, opp_rights: false, opp_to_move: false }), 1));
             families.push((Box::new(CastleFamily { extras: 0, opp_rights: false, opp_to_move: true }), 2));
@@ -42,8 +43,10 @@ pub fn standard_plan(tier: Tier, scale: u64) -> Plan {
             families.push((Box::new(PromoFamily::reduced()), 1));
         }
         Tier::Thorough => {
-            families.push((Box::new(EpFamily { extra: Extra::None }), 2));
-            families.push((Box::new(EpFamily { extra: Extra::Any }), 1));
+            families.push((Box::new(EpFamily { extra: Extra::None, pre_push: false }), 2));
+            families.push((Box::new(EpFamily { extra: Extra::Any, pre_push: false }), 1));
+            families.push((Box::new(EpFamily { extra: Extra::None, pre_push: true }), 3));
+            families.push((Box::new(EpFamily { extra: Extra::EnemySlider, pre_push: true }), 2));
             families.push((Box::new(CastleFamily { extras: 0, opp_rights: false, opp_to_move: false }), 2));
             families.push((Box::new(CastleFamily { extras: 1, opp_rights: false, opp_to_move: false }), 1));
             families.push((Box::new(CastleFamily { extras: 1, opp_rights: true, opp_to_move: false }), 1));
@@ -87,7 +90,9 @@ pub fn standard_plan(tier: Tier, scale: u64) -> Plan {
 /// diagonal exposure of the capturing side's king), with children, also in the quick tier.
 pub fn with_ep_slider_family(mut plan: Plan, tier: Tier) -> Plan {
     if tier == Tier::Quick {
-        plan.families.push((Box::new(EpFamily { extra: Extra::EnemySlider }), 1));
+        // member = position before the double push; first action = the push (made by the library),
+        // then every reply: the en-passant captures are judged on incrementally produced boards
+        plan.families.push((Box::new(EpFamily { extra: Extra::EnemySlider, pre_push: true }), 2));
     }
     plan
 }
@@ -155,7 +160,7 @@ pub fn run_plan<O: PosOracle>(run: &Arc<Run>, oracle: &Arc<O>, plan: &Plan) {
             let t0 = run.elapsed();
             let st = explore_tree(run, oracle, &fr, fd, plan.dfs);
             run.note("feature_root_trees", json!({"roots": fr.len(), "depth": fd, "unique_states": st.unique, "arrivals": st.generated, "seconds": run.elapsed() - t0,
-                "what": "one position per feature signature (check kind x pins x en-passant state x castling state x promotion x classes of illegal pseudo-moves), found by a reference-only BFS to depth 4 below 12 opening lines and the dense curated roots"}));
+                "what": "for every feature signature (check kind x pins x en-passant state x castling state x promotion x classes of illegal pseudo-moves) met by a reference-only BFS to depth 4 below 12 opening lines and the dense curated roots, the PARENT of its first occurrence (so the representative is reached by the library's incremental move application one ply below the root)"}));
             if let Some(r) = fr.get((run.seed as usize * 131 + 17) % fr.len().max(1)) {
                 run.sample(json!({"kind": "feature root", "fen": r.fen(), "explored_to_depth": fd}));
             }
@@ -174,7 +179,7 @@ pub fn run_plan<O: PosOracle>(run: &Arc<Run>, oracle: &Arc<O>, plan: &Plan) {
             continue;
         }
         let t0 = run.elapsed();
-        let n = sweep_family(run, oracle, f.size(), |i| f.get(i), *cd);
+        let n = sweep_family_first(run, oracle, f.size(), |i| f.get(i), |p| f.first_moves(p), *cd);
         fam_notes.push(json!({"family": f.name(), "index_space": f.size(), "valid_members": n, "child_depth": cd, "seconds": run.elapsed() - t0}));
         if let Some(p) = (0..f.size()).step_by(((f.size() / 97).max(1)) as usize).filter_map(|i| f.get(i)).nth((run.seed % 5) as usize) {
             run.sample(json!({"kind": "family member", "family": f.name(), "fen": p.fen()}));
